@@ -71,6 +71,13 @@ void StructSyncManager::sync_direct_access_from_struct_value(
             const Variable &member_value = member_pair.second;
             std::string qualified_name = base_name + "." + member_name;
 
+            // プリミティブ配列の要素キー (例: "arr[0]") は配列本体から
+            // 作成済みなので、古い値で上書きしない
+            if (member_name.find('[') != std::string::npos &&
+                !member_value.is_struct) {
+                continue;
+            }
+
             vars[qualified_name] = member_value;
             Variable &dest_member = vars[qualified_name];
             dest_member.is_assigned = true;
